@@ -333,6 +333,9 @@ func runCheck(o *checkOpts) int {
 		}(i, j)
 	}
 	wg.Wait()
+	if (o.prop == "C12" || o.prop == "") && o.only == "" {
+		results = append(results, w.sharedResults()...)
+	}
 
 	// classify
 	var failed []*obResult
